@@ -163,6 +163,13 @@ def run(ctx):
     from .c13 import rule_no_bom_sniffing
     rule_no_bom_sniffing(ctx, mir, rid="R16.5")
 
+    # ------------------------------------------------------------------ R16.6 (shared with C03 R03.1)
+    # tag names, attributes and the self-closing flag are what the tokenizer delimits: byte classes must equal the reference
+    from .c03 import rule_product
+    from ..smgraph import Graph as _Graph, automaton as _automaton
+    _aut = _automaton()
+    rule_product(ctx, _Graph(_aut), _aut, rid="R16.6")
+
     ctx.not_decided += ["exact range arithmetic of finish_attr_value (closing-quote offsets) at run time", "decoding of values (encoding_rs)"]
     return ("Typestate of the attribute-building actions over every path of the %d-state automaton, the lookup/edit discipline of Attributes, "
             "the getter-to-decoder mapping, where the reported namespace is read relative to tree-builder feedback, and a lint for byte-wise "
